@@ -57,14 +57,65 @@ def baseline(wt):
     rc, out = sh("cargo nextest run --workspace --no-fail-fast --tool-config-file pb:/w/lib/nextest.toml --profile pb --test-threads 8 --offline", cwd=wt, timeout=5400)
     if not os.path.exists(junit):
         return {"ok": False, "note": "no junit output (build failure?)", "tail": out[-3000:]}
-    rc2, out2 = sh(f"python3 /w/lib/parse_tests.py --kind junit --glob {junit}")
+    import xml.etree.ElementTree as ET
     try:
-        r = json.loads(out2)
-    except Exception:
-        return {"ok": False, "note": "unparseable result", "tail": out2[-2000:]}
+        root = ET.parse(junit).getroot()
+    except Exception as e:
+        return {"ok": False, "note": "unparseable junit: %s" % e}
+    r = {"passed": [], "failed": []}
+    for tc in root.iter("testcase"):
+        tid = (tc.get("classname") or "") + "::" + (tc.get("name") or "")
+        if tc.find("failure") is not None or tc.find("error") is not None or tc.find("flakyFailure") is not None or tc.find("rerunFailure") is not None:
+            r["failed"].append(tid)
+        elif tc.find("skipped") is not None:
+            pass
+        else:
+            r["passed"].append(tid)
     passed = set(r["passed"]); failed = set(r["failed"])
     bad = sorted(STABLE - passed)
-    return {"ok": not bad, "stable_not_passing": bad, "n_passed": len(passed), "n_failed": len(failed)}
+    note = None
+    if bad and len(bad) <= 12:
+        # timing-based tests (e.g. dicom-ul test_slow_association*) flake on a loaded machine:
+        # re-run exactly the tests that did not pass, with retries
+        filt = " ".join(sorted({"::".join(b.split("::")[-2:]) for b in bad}))
+        rc, out = sh(f"cargo nextest run --workspace --no-fail-fast --offline --retries 5 --test-threads 2 {filt}", cwd=wt, timeout=1800)
+        if rc == 0:
+            note = "passed on an isolated re-run (timing-sensitive under load): " + ", ".join(bad)
+            bad = []
+        else:
+            note = "still failing on an isolated re-run: " + out[-600:]
+    return {"ok": not bad, "stable_not_passing": bad, "n_passed": len(passed), "n_failed": len(failed), "note": note}
+
+def partial(d, k, props, mode):
+    """mode 'baseline': only the baseline suite on the mutated tree; 'checks': only the checks.
+    Results are merged into an existing confirm.json."""
+    d = os.path.abspath(d)
+    meta = json.load(open(os.path.join(d, "meta.json")))
+    if not props:
+        p = meta.get("property")
+        props = [p] if isinstance(p, str) else list(p)
+    cj = os.path.join(d, "confirm.json")
+    res = json.load(open(cj)) if os.path.exists(cj) else {}
+    wt = prepare(k)
+    rc, out = sh(f"git apply {os.path.join(d,'patch.diff')}", cwd=wt)
+    if rc != 0:
+        print("patch does not apply", out[-500:]); return
+    res["repo_head"] = sh(f"git -C {REPO} rev-parse HEAD")[1].strip()
+    if mode == "baseline":
+        res["baseline"] = baseline(wt)
+        print(d, "baseline", res["baseline"].get("ok"), res["baseline"].get("stable_not_passing"), res["baseline"].get("note"))
+    else:
+        checks = res.get("checks", {})
+        for p in props:
+            t0 = time.time()
+            rc, out = sh(f"./check {p} --tier quick", cwd="/verif", env={"VERIF_REPO": wt}, timeout=3600)
+            lines = [l for l in out.splitlines() if re.match(r"^(VIOLATION|KNOWN-FINDING|INCONCLUSIVE|\[" + p + r"\])", l)]
+            checks[p] = {"rc": rc, "caught": rc == 1 and any(l.startswith("VIOLATION") for l in lines), "lines": lines[:12], "wall_s": round(time.time() - t0, 1)}
+            print(d, p, "rc", rc, "caught", checks[p]["caught"])
+        res["checks"] = checks
+    res["confirmed_mutant"] = bool(res.get("demo_clean_rc") == 0 and res.get("demo_mutant_rc", 0) != 0 and (res.get("baseline") or {}).get("ok"))
+    json.dump(res, open(cj, "w"), indent=1)
+    sh("git checkout -- . && git clean -fdq -e target", cwd=wt)
 
 def confirm(d, k, props, skip_baseline):
     d = os.path.abspath(d)
@@ -105,9 +156,58 @@ def confirm(d, k, props, skip_baseline):
     print(json.dumps({k2: v for k2, v in res.items() if k2 != "demo_mutant_tail"}, indent=1))
     sh("git checkout -- . && git clean -fdq -e target", cwd=wt)
 
+def install(src):
+    """Copy a confirmed mutant into /verif/seeded/<id>/ (patch.diff, demo.sh, demo/, meta.json)."""
+    src = os.path.abspath(src)
+    mid = os.path.basename(src.rstrip("/"))
+    cj = os.path.join(src, "confirm.json")
+    if not os.path.exists(cj):
+        print("no confirm.json in", src); return
+    c = json.load(open(cj))
+    meta = json.load(open(os.path.join(src, "meta.json")))
+    dst = os.path.join("/verif/seeded", mid)
+    prev = {}
+    if os.path.exists(os.path.join(dst, "meta.json")):
+        prev = json.load(open(os.path.join(dst, "meta.json"))).get("verification", {})
+    shutil.rmtree(dst, ignore_errors=True)
+    os.makedirs(dst)
+    shutil.copy(os.path.join(src, "patch.diff"), dst)
+    shutil.copy(os.path.join(src, "demo.sh"), dst)
+    if os.path.isdir(os.path.join(src, "demo")):
+        shutil.copytree(os.path.join(src, "demo"), os.path.join(dst, "demo"))
+    ver = {
+        "demo_on_clean_tree_rc": c.get("demo_clean_rc"),
+        "demo_on_mutated_tree_rc": c.get("demo_mutant_rc"),
+        "baseline_suite_passes_with_mutant": (c.get("baseline") or {}).get("ok"),
+        "baseline_detail": {k: v for k, v in (c.get("baseline") or {}).items() if k != "tail"},
+        "confirmed": c.get("confirmed_mutant"),
+        "repo_head_when_confirmed": c.get("repo_head"),
+        "checks": {p: {"caught": v["caught"], "rc": v["rc"], "first_lines": v["lines"][:3]} for p, v in c.get("checks", {}).items()},
+    }
+    if "first_run_checks" in c:
+        ver["first_run_checks"] = c["first_run_checks"]
+        ver["note"] = "missed by the first version of the check; the check was strengthened (see DESIGN.md section 7) and now reports it"
+    elif "first_run_checks" in prev:
+        ver["first_run_checks"] = prev["first_run_checks"]
+    meta["verification"] = ver
+    json.dump(meta, open(os.path.join(dst, "meta.json"), "w"), indent=1)
+    print("installed", mid, "confirmed", ver["confirmed"], {p: v["caught"] for p, v in ver["checks"].items()})
+
 if __name__ == "__main__":
     a = sys.argv[1:]
-    if a[0] == "confirm":
+    if a[0] == "install":
+        for d in a[1:]:
+            install(d)
+        sys.exit(0)
+    if a[0] in ("baseline", "checks"):
+        d = a[1]; k = 0; props = []
+        i = 2
+        while i < len(a):
+            if a[i] == "--slot": k = int(a[i+1]); i += 2
+            elif a[i] == "--props": props = a[i+1].split(","); i += 2
+            else: raise SystemExit("bad arg " + a[i])
+        partial(d, k, props, a[0])
+    elif a[0] == "confirm":
         d = a[1]; k = 0; props = []; skip = False
         i = 2
         while i < len(a):
